@@ -268,6 +268,11 @@ Theorem C17_reread_conditional_partial : forall caps o, SccRereadDoc.caps_ok cap
   ok_reread (map to_cue caps) o = 0%Z.
 Proof. exact SccRereadDoc.reread_conditional. Qed.
 Print Assumptions C17_reread_conditional_partial.
+(* in the terms of the boolean the harness evaluates on every case (request 1705) *)
+Theorem C17_roundtrip_ok_when_read_partial : forall caps pcs, SccRereadDoc.caps_ok caps ->
+  reread caps = RRRead (ROk pcs) -> roundtrip_ok caps = true.
+Proof. exact SccRereadDoc.roundtrip_ok_when_read. Qed.
+Print Assumptions C17_roundtrip_ok_when_read_partial.
 Theorem C17_reread_refusals_partial : forall caps, SccRereadDoc.caps_ok caps -> caps <> [] ->
   (exists pcs, reread caps = RRRead (ROk pcs)) \/ (exists m, reread caps = RRRead (RLen m)) \/ reread caps = RRRead (RErr ETiming).
 Proof. exact SccRereadDoc.reread_refusals. Qed.
